@@ -66,6 +66,8 @@ Definition counted (k : call) : bool :=
 Definition inside (k : call) : bool :=
   match k_pc k with Reg | Dialing | Enq | Waiting | Done | Uncounted => true | _ => false end.
 Definition in_doInvoke (k : call) : bool := counted k || inside k.
+(* counted on the queueLen of proxy p *)
+Definition counted_by (p : nat) (k : call) : bool := counted k && Nat.eqb p (k_px k).
 Definition invoked (k : call) : bool :=
   match k_pc k with Init | Returned => false | _ => true end.
 Fixpoint cnt (f : call -> bool) (l : list call) : Z :=
@@ -108,7 +110,7 @@ Proof.
 Qed.
 
 Record InvA (s : state) : Prop := {
-  a_q : queueLen s = cnt counted (calls s);
+  a_q : forall p, queueLen s p = cnt (counted_by p) (calls s);
   a_n : invokeNum s = cnt invoked (calls s);
   a_r : forall i, In i (resp s) <-> inside_at (calls s) i;
   a_nd : NoDup (resp s) }.
@@ -122,7 +124,7 @@ Qed.
 Lemma remove_nat_nodup : forall i l, NoDup l -> NoDup (remove_nat i l).
 Proof. intros. apply NoDup_filter. assumption. Qed.
 
-Ltac pcs := unfold counted, inside, in_doInvoke, invoked, set_pc, set_reg, set_wait, set_lock, set_out, set_full, set_enq, set_ret in *; cbn [k_pc] in *.
+Ltac pcs := unfold counted_by, counted, inside, in_doInvoke, invoked, set_pc, set_reg, set_wait, set_lock, set_out, set_full, set_enq, set_ret in *; cbn [k_pc] in *.
 
 Lemma InvA_init : InvA init.
 Proof.
@@ -132,11 +134,11 @@ Qed.
 
 (* a step that replaces call i by x where both are inside or both are not, and leaves the counters and the table alone *)
 Lemma InvA_same : forall s s' i k x,
-  InvA s -> nth_error (calls s) i = Some k -> counted x = counted k -> inside x = inside k -> invoked x = invoked k ->
+  InvA s -> nth_error (calls s) i = Some k -> (forall p, counted_by p x = counted_by p k) -> inside x = inside k -> invoked x = invoked k ->
   calls s' = upd (calls s) i x -> queueLen s' = queueLen s -> invokeNum s' = invokeNum s -> resp s' = resp s -> InvA s'.
 Proof.
   intros s s' i k x [Hq Hn Hr Hd] Hk Hcn Hi Hv Hc Hq' Hn' Hr'. split.
-  - rewrite Hq', Hc, (cnt_upd _ _ _ _ x Hk), Hcn, Hq. lia.
+  - intros p. rewrite Hq', Hc, (cnt_upd _ _ _ _ x Hk), Hcn, Hq. lia.
   - rewrite Hn', Hc, (cnt_upd _ _ _ _ x Hk), Hv, Hn. lia.
   - intros j. rewrite Hr', Hc, (inside_at_upd_same _ _ _ _ Hk Hi). apply Hr.
   - rewrite Hr'. exact Hd.
@@ -145,21 +147,21 @@ Qed.
 (* a step that does not touch the calls, the counters or the table *)
 Lemma InvA_frame : forall s s', InvA s -> calls s' = calls s -> queueLen s' = queueLen s -> invokeNum s' = invokeNum s ->
   resp s' = resp s -> InvA s'.
-Proof. intros s s' [Hq Hn Hr Hd] Hc Hq' Hn' Hr'. split; rewrite ?Hq', ?Hn', ?Hr', ?Hc; auto. Qed.
+Proof. intros s s' [Hq Hn Hr Hd] Hc Hq' Hn' Hr'. split; try intros p; rewrite ?Hq', ?Hn', ?Hr', ?Hc; auto. Qed.
 
 Lemma InvA_step : forall c s l s', InvA s -> step c s l = Some s' -> InvA s'.
 Proof.
   intros c s l s' HA H. destruct l; inv_step H.
   - (* Tick *) eapply InvA_frame; eauto.
   - (* Start *) destruct HA as [Hq Hn Hr Hd]. split; cbn [calls queueLen invokeNum resp with_calls].
-    + rewrite cnt_app. cbn. lia.
+    + intros p. specialize (Hq p). rewrite cnt_app. cbn. lia.
     + rewrite cnt_app. cbn. lia.
     + intros j. rewrite Hr. unfold inside_at. split; intros [k [Hk Hi]].
       * exists k. split; [|exact Hi]. rewrite nth_error_app1; [exact Hk|]. apply nth_error_Some. congruence.
       * apply nth_app_inv in Hk. destruct Hk as [Hk|[_ ->]]; [eauto|]. cbn in Hi. discriminate.
     + exact Hd.
   - (* LPre *) destruct HA as [Hq Hn Hr Hd]. split; cbn [calls queueLen invokeNum resp].
-    + rewrite (cnt_upd _ _ _ _ _ Heqo). pcs. rewrite Heqp. lia.
+    + intros p. specialize (Hq p). try unfold fset. rewrite (cnt_upd _ _ _ _ _ Heqo). pcs. cbn [k_px] in *. rewrite Heqp. cbn [andb]. destruct (Nat.eqb p (k_px c0)) eqn:Ep; [apply Nat.eqb_eq in Ep; subst p|]; cbn [andb]; lia.
     + rewrite (cnt_upd _ _ _ _ _ Heqo). pcs. rewrite Heqp. lia.
     + intros j. rewrite (inside_at_upd_same _ _ _ _ Heqo); [apply Hr|]. pcs. rewrite Heqp. reflexivity.
     + exact Hd.
@@ -167,7 +169,7 @@ Proof.
     assert (Hni : ~ In i (resp s)).
     { rewrite Hr. intros [k' [Hk' Hi]]. rewrite Heqo in Hk'. inversion Hk'; subst. unfold inside in Hi. rewrite Heqp in Hi. discriminate. }
     split; cbn [calls queueLen invokeNum resp].
-    + rewrite (cnt_upd _ _ _ _ _ Heqo). pcs. rewrite Heqp. lia.
+    + intros p. specialize (Hq p). try unfold fset. rewrite (cnt_upd _ _ _ _ _ Heqo). pcs. cbn [k_px] in *. rewrite Heqp. cbn [andb]. destruct (Nat.eqb p (k_px c0)) eqn:Ep; [apply Nat.eqb_eq in Ep; subst p|]; cbn [andb]; lia.
     + rewrite (cnt_upd _ _ _ _ _ Heqo). pcs. rewrite Heqp. lia.
     + intros j. cbn [In]. unfold inside_at. split.
       * intros [<-|Hj].
@@ -187,7 +189,7 @@ Proof.
   - (* LEnqTimeout *) eapply (InvA_same s _ i c0 (set_out c0 Error true)); eauto; pcs; rewrite Heqp; reflexivity.
   - (* LCtxFire *) eapply (InvA_same s _ i c0 (set_out c0 Timeout (k_e c0))); eauto; pcs; rewrite Heqp; reflexivity.
   - (* LClean *) destruct HA as [Hq Hn Hr Hd]. split; cbn [calls queueLen invokeNum resp].
-    + rewrite (cnt_upd _ _ _ _ _ Heqo). pcs. rewrite Heqp. lia.
+    + intros p. specialize (Hq p). try unfold fset. rewrite (cnt_upd _ _ _ _ _ Heqo). pcs. cbn [k_px] in *. rewrite Heqp. cbn [andb]. destruct (Nat.eqb p (k_px c0)) eqn:Ep; [apply Nat.eqb_eq in Ep; subst p|]; cbn [andb]; lia.
     + rewrite (cnt_upd _ _ _ _ _ Heqo). pcs. rewrite Heqp. lia.
     + intros j. rewrite remove_nat_in, Hr. unfold inside_at. split.
       * intros [[k' [Hk' Hi]] Hne]. exists k'. split; [|exact Hi]. rewrite nth_upd_neq; [exact Hk'|congruence].
@@ -196,7 +198,7 @@ Proof.
         -- split; [exists k'; auto|exact Hne].
     + apply remove_nat_nodup. exact Hd.
   - (* LPost *) destruct HA as [Hq Hn Hr Hd]. split; cbn [calls queueLen invokeNum resp].
-    + rewrite (cnt_upd _ _ _ _ _ Heqo). pcs. rewrite Heqp. lia.
+    + intros p. specialize (Hq p). try unfold fset. rewrite (cnt_upd _ _ _ _ _ Heqo). pcs. cbn [k_px] in *. rewrite Heqp. cbn [andb]. destruct (Nat.eqb p (k_px c0)) eqn:Ep; [apply Nat.eqb_eq in Ep; subst p|]; cbn [andb]; lia.
     + rewrite (cnt_upd _ _ _ _ _ Heqo). pcs. rewrite Heqp. lia.
     + intros j. rewrite (inside_at_upd_same _ _ _ _ Heqo); [apply Hr|]. pcs. rewrite Heqp. reflexivity.
     + exact Hd.
@@ -212,12 +214,12 @@ Proof.
   - (* LCancel *) eapply (InvA_same s _ i c0 (set_out c0 Cancelled (k_e c0))); eauto; pcs; rewrite Heqp; reflexivity.
   - (* LFilterErr *) eapply (InvA_same s _ i c0 (set_full c0)); eauto; pcs; rewrite Heqp; reflexivity.
   - (* LCount *) destruct HA as [Hq Hn Hr Hd]. split; cbn [calls queueLen invokeNum resp].
-    + rewrite (cnt_upd _ _ _ _ _ Heqo). pcs. rewrite Heqp. lia.
+    + intros p. specialize (Hq p). try unfold fset. rewrite (cnt_upd _ _ _ _ _ Heqo). pcs. cbn [k_px] in *. rewrite Heqp. cbn [andb]. destruct (Nat.eqb p (k_px c0)) eqn:Ep; [apply Nat.eqb_eq in Ep; subst p|]; cbn [andb]; lia.
     + rewrite (cnt_upd _ _ _ _ _ Heqo). pcs. rewrite Heqp. lia.
     + intros j. rewrite (inside_at_upd_same _ _ _ _ Heqo); [apply Hr|]. pcs. rewrite Heqp. reflexivity.
     + exact Hd.
   - (* LUncount *) destruct HA as [Hq Hn Hr Hd]. split; cbn [calls queueLen invokeNum resp].
-    + rewrite (cnt_upd _ _ _ _ _ Heqo). pcs. rewrite Heqp. lia.
+    + intros p. specialize (Hq p). try unfold fset. rewrite (cnt_upd _ _ _ _ _ Heqo). pcs. cbn [k_px] in *. rewrite Heqp. cbn [andb]. destruct (Nat.eqb p (k_px c0)) eqn:Ep; [apply Nat.eqb_eq in Ep; subst p|]; cbn [andb]; lia.
     + rewrite (cnt_upd _ _ _ _ _ Heqo). pcs. rewrite Heqp. lia.
     + intros j. rewrite (inside_at_upd_same _ _ _ _ Heqo); [apply Hr|]. pcs. rewrite Heqp. reflexivity.
     + exact Hd.
@@ -263,7 +265,7 @@ Definition time_ok (c : cfg) (n : N) (k : call) : Prop :=
 
 Definition InvT (c : cfg) (s : state) : Prop := all_calls (fun _ k => time_ok c (now s) k) (calls s).
 
-Ltac fields := cbn [k_start k_dl k_pc k_t0 k_lockt k_d k_e k_out k_ret k_rel0 k_w] in *.
+Ltac fields := cbn [k_px k_ow k_start k_dl k_pc k_t0 k_lockt k_d k_e k_out k_ret k_rel0 k_w] in *.
 Ltac usepc := repeat match goal with H : k_pc _ = _ |- _ => rewrite H in *; clear H end.
 Ltac splitifs :=
   repeat match goal with
@@ -507,16 +509,16 @@ Lemma nil_of_no_in : forall (l : list nat), (forall j, ~ In j l) -> l = [].
 Proof. intros [|h t] H; [reflexivity|]. exfalso. apply (H h). left; reflexivity. Qed.
 
 Theorem restored_counts : forall c s, reach c s ->
-  queueLen s = cnt counted (calls s) /\ invokeNum s = cnt invoked (calls s) /\
+  (forall p, queueLen s p = cnt (counted_by p) (calls s)) /\ invokeNum s = cnt invoked (calls s) /\
   (forall i, In i (resp s) <-> inside_at (calls s) i) /\ NoDup (resp s).
 Proof. intros c s H. destruct (InvA_reach c s H). auto. Qed.
 
 Theorem restored_quiescent : forall c s, reach c s ->
   (forall i k, nth_error (calls s) i = Some k -> k_pc k = Init \/ k_pc k = Returned) ->
-  queueLen s = 0%Z /\ invokeNum s = 0%Z /\ resp s = [].
+  (forall p, queueLen s p = 0%Z) /\ invokeNum s = 0%Z /\ resp s = [].
 Proof.
   intros c s H Hq. destruct (InvA_reach c s H) as [Hql Hin Hr Hd]. repeat split.
-  - rewrite Hql. apply cnt_all_false. intros i k Hk. unfold counted. destruct (Hq _ _ Hk) as [-> | ->]; reflexivity.
+  - intros p. rewrite Hql. apply cnt_all_false. intros i k Hk. unfold counted_by, counted. destruct (Hq _ _ Hk) as [-> | ->]; reflexivity.
   - rewrite Hin. apply cnt_all_false. intros i k Hk. unfold invoked. destruct (Hq _ _ Hk) as [-> | ->]; reflexivity.
   - apply nil_of_no_in. intros j Hj. apply Hr in Hj. destruct Hj as [k [Hk Hi]].
     unfold inside in Hi. destruct (Hq _ _ Hk) as [Hp|Hp]; rewrite Hp in Hi; discriminate.
@@ -524,13 +526,13 @@ Qed.
 
 (* no call inside doInvoke: queueLen and the pending-reply table are empty, whatever the other calls do outside *)
 Theorem restored_no_call_inside : forall c s, reach c s ->
-  (forall i k, nth_error (calls s) i = Some k -> in_doInvoke k = false) -> queueLen s = 0%Z /\ resp s = [].
+  (forall i k, nth_error (calls s) i = Some k -> in_doInvoke k = false) -> (forall p, queueLen s p = 0%Z) /\ resp s = [].
 Proof.
   intros c s H Hq0. destruct (InvA_reach c s H) as [Hql Hin Hr Hd].
   assert (Hq : forall i k, nth_error (calls s) i = Some k -> counted k = false /\ inside k = false).
   { intros i k Hk. specialize (Hq0 i k Hk). unfold in_doInvoke in Hq0. apply orb_false_elim in Hq0. exact Hq0. }
   split.
-  - rewrite Hql. apply cnt_all_false. intros i k Hk. apply (Hq i k Hk).
+  - intros p. rewrite Hql. apply cnt_all_false. intros i k Hk. unfold counted_by. destruct (Hq i k Hk) as [E _]. rewrite E. reflexivity.
   - apply nil_of_no_in. intros j Hj. apply Hr in Hj. destruct Hj as [k [Hk Hi]].
     destruct (Hq _ _ Hk) as [_ E]. rewrite E in Hi. discriminate.
 Qed.
@@ -547,10 +549,11 @@ Qed.
 Theorem restored_per_call : forall c s1 s2 i k1 k2, reach c s1 -> reach c s2 ->
   length (calls s1) = length (calls s2) ->
   (forall j a b, j <> i -> nth_error (calls s1) j = Some a -> nth_error (calls s2) j = Some b -> k_pc a = k_pc b) ->
+  (forall j a b, nth_error (calls s1) j = Some a -> nth_error (calls s2) j = Some b -> k_px a = k_px b) ->
   nth_error (calls s1) i = Some k1 -> k_pc k1 = Init -> nth_error (calls s2) i = Some k2 -> k_pc k2 = Returned ->
-  queueLen s1 = queueLen s2 /\ invokeNum s1 = invokeNum s2 /\ (forall j, In j (resp s1) <-> In j (resp s2)).
+  (forall p, queueLen s1 p = queueLen s2 p) /\ invokeNum s1 = invokeNum s2 /\ (forall j, In j (resp s1) <-> In j (resp s2)).
 Proof.
-  intros c s1 s2 i k1 k2 H1 H2 Hl Hsame Hk1 Hp1 Hk2 Hp2.
+  intros c s1 s2 i k1 k2 H1 H2 Hl Hsame Hpx Hk1 Hp1 Hk2 Hp2.
   destruct (InvA_reach c s1 H1) as [Hq1 Hn1 Hr1 _]. destruct (InvA_reach c s2 H2) as [Hq2 Hn2 Hr2 _].
   assert (Hcn : forall j a b, nth_error (calls s1) j = Some a -> nth_error (calls s2) j = Some b -> counted a = counted b).
   { intros j a b Ha Hb. destruct (Nat.eq_dec j i) as [->|Hne].
@@ -561,7 +564,7 @@ Proof.
     - rewrite Hk1 in Ha. rewrite Hk2 in Hb. inversion Ha; inversion Hb; subst. unfold inside, invoked. rewrite Hp1, Hp2. auto.
     - unfold inside, invoked. rewrite (Hsame _ _ _ Hne Ha Hb). auto. }
   repeat split.
-  - rewrite Hq1, Hq2. apply cnt_ext; [exact Hl|]. intros j a b Ha Hb. apply (Hcn j a b Ha Hb).
+  - intros p. rewrite Hq1, Hq2. apply cnt_ext; [exact Hl|]. intros j a b Ha Hb. unfold counted_by. rewrite (Hcn j a b Ha Hb), (Hpx j a b Ha Hb). reflexivity.
   - rewrite Hn1, Hn2. apply cnt_ext; [exact Hl|]. intros j a b Ha Hb. apply (Hpc j a b Ha Hb).
   - rewrite Hr1, Hr2. intros [a [Ha Hi]].
     assert (Hlt : (j < length (calls s2))%nat) by (rewrite <- Hl; apply nth_error_Some; congruence).
@@ -644,12 +647,12 @@ Fixpoint ticks (n : nat) : list label := match n with O => [] | S m => Tick :: t
 (* (a) two callers, connection establishment stalls: the second caller waits for connLock while the first one dials *)
 Definition stalled_cfg : cfg := mkcfg 40 60 10 100 100000 60000.
 Definition stalled_trace : list label :=
-  [Start 20 false; Start 20 false; LPre 0; LCount 0; LReg 0; LLock 0; LPre 1; LCount 1; LReg 1] ++ ticks 40 ++
+  [Start 20 false 0%nat; Start 20 false 0%nat; LPre 0; LCount 0; LReg 0; LLock 0; LPre 1; LCount 1; LReg 1] ++ ticks 40 ++
   [LDialTimeout 0; LUncount 0; LClean 0; LPost 0; LLock 1] ++ ticks 40 ++ [LDialTimeout 1; LUncount 1; LClean 1; LPost 1].
 (* (b) the peer accepts and never reads, send queue of length 1: the second caller waits WriteTimeout for room *)
 Definition fullq_cfg : cfg := mkcfg 10 60 10 1 100000 60000.
 Definition fullq_trace : list label :=
-  [Start 10 false; Start 10 false; LPre 0; LCount 0; LReg 0; LLock 0; LDialOk 0; LEnq 0; LPre 1; LCount 1; LReg 1; LLock 1] ++ ticks 10 ++
+  [Start 10 false 0%nat; Start 10 false 0%nat; LPre 0; LCount 0; LReg 0; LLock 0; LDialOk 0; LEnq 0; LPre 1; LCount 1; LReg 1; LLock 1] ++ ticks 10 ++
   [LCtxFire 0; LUncount 0; LClean 0; LPost 0] ++ ticks 50 ++ [LEnqTimeout 1; LUncount 1; LClean 1; LPost 1].
 
 Definition late_call (c : cfg) (ls : list label) (i : nat) : bool :=
@@ -777,7 +780,7 @@ Proof.
     destruct (k_pc k) eqn:Hp; try discriminate.
     + exists (LPre i). eexists. cbn [step]. rewrite Hk, Hp. split; [discriminate|]. split; [reflexivity|]. unfold mu; cbn [calls rcvs now].
       specialize (Hm (set_pc k Pre)). cbn in Hm. split; [lia|reflexivity].
-    + destruct (qmax c <? queueLen s)%Z eqn:Hq.
+    + destruct (qmax c <? queueLen s (k_px k))%Z eqn:Hq.
       * exists (LQueueFull i). eexists. cbn [step]. rewrite Hk, Hp, Hq. split; [discriminate|]. split; [reflexivity|]. unfold mu, with_calls; cbn [calls rcvs now].
         specialize (Hm (set_full k)). cbn in Hm. split; [lia|reflexivity].
       * exists (LCount i). eexists. cbn [step]. rewrite Hk, Hp, Hq. split; [discriminate|]. split; [reflexivity|]. unfold mu; cbn [calls rcvs now].
@@ -1008,21 +1011,42 @@ Proof.
     + cbn [step]. rewrite Hx, Hf, Hk, Hp. reflexivity.
 Qed.
 
+(* the owner of the counter: registration and cleanup of a call move the queueLen of the proxy the call was made on, and
+   no other proxy's; no other step moves any queueLen *)
+Theorem counter_owner : forall c s l s', step c s l = Some s' ->
+  forall p, queueLen s' p <> queueLen s p ->
+  exists i k, nth_error (calls s) i = Some k /\ k_px k = p /\
+    ((l = LCount i /\ queueLen s' p = (queueLen s p + 1)%Z) \/ (l = LUncount i /\ queueLen s' p = (queueLen s p - 1)%Z)).
+Proof.
+  intros c s l s' H p Hne. destruct l; inv_step H; unfold with_calls, with_rcvs in Hne; cbn [queueLen] in Hne; try congruence.
+  - exists i, c0. unfold fset in *. cbn [queueLen]. destruct (Nat.eqb p (k_px c0)) eqn:E; [|congruence].
+    apply Nat.eqb_eq in E. subst p. auto.
+  - exists i, c0. unfold fset in *. cbn [queueLen]. destruct (Nat.eqb p (k_px c0)) eqn:E; [|congruence].
+    apply Nat.eqb_eq in E. subst p. auto.
+Qed.
+
+(* two ServantProxy objects for one object, overlapping calls: each proxy's own counter is back to 0 *)
+Example two_proxies_overlap :
+  let '(s, _, ok) := canonical (mkscen (mkcfg 30 40 10 100 100000 60000) CAccept [mkact false (Some 4) false false] 4 1 (mktmo 20 None None) [0] false 2 None 0 false) in
+  ok = true /\ map fst (model_calls s) = [OReply; OReply; OReply; OReply] /\ map k_px (calls s) = [0; 1; 0; 1]%nat /\
+  queueLen s 0%nat = 0%Z /\ queueLen s 1%nat = 0%Z /\ invokeNum s = 0%Z /\ resp s = [].
+Proof. vm_compute. repeat split; reflexivity. Qed.
+
 (* every way a call can end is a run of the model: one reachable returned call per outcome (and per path to Error) *)
 Example outcome_paths_exist :
   let cfg0 := mkcfg 30 40 10 1 100000 60000 in
   let ret ls i := match run cfg0 init ls with
                   | Some s => match nth_error (calls s) i with Some k => match k_pc k with Returned => k_out k | _ => None end | None => None end
                   | None => None end in
-  ret [Start 20 false; LPre 0; LCount 0; LReg 0; LLock 0; LDialOk 0; LEnq 0; LSendTake; LPeerPkt 1 7; LLookup 0; LDeliver 0; LUncount 0; LClean 0; LPost 0] 0%nat = Some (Reply 7) /\
-  ret ([Start 20 false; LPre 0; LCount 0; LReg 0; LLock 0; LDialOk 0; LEnq 0] ++ ticks 20 ++ [LCtxFire 0; LUncount 0; LClean 0; LPost 0]) 0%nat = Some Timeout /\
-  ret [Start 20 false; LPre 0; LCount 0; LReg 0; LLock 0; LDialOk 0; LEnq 0; LCancel 0; LUncount 0; LClean 0; LPost 0] 0%nat = Some Cancelled /\
-  ret [Start 20 false; LPre 0; LCount 0; LReg 0; LLock 0; LDialFail 0; LUncount 0; LClean 0; LPost 0] 0%nat = Some Error /\
-  ret ([Start 20 false; LPre 0; LCount 0; LReg 0; LLock 0] ++ ticks 30 ++ [LDialTimeout 0; LUncount 0; LClean 0; LPost 0]) 0%nat = Some Error /\
-  ret ([Start 20 false; Start 20 false; LPre 0; LCount 0; LReg 0; LLock 0; LDialOk 0; LEnq 0; LPre 1; LCount 1; LReg 1; LLock 1] ++ ticks 20 ++
+  ret [Start 20 false 0%nat; LPre 0; LCount 0; LReg 0; LLock 0; LDialOk 0; LEnq 0; LSendTake; LPeerPkt 1 7; LLookup 0; LDeliver 0; LUncount 0; LClean 0; LPost 0] 0%nat = Some (Reply 7) /\
+  ret ([Start 20 false 0%nat; LPre 0; LCount 0; LReg 0; LLock 0; LDialOk 0; LEnq 0] ++ ticks 20 ++ [LCtxFire 0; LUncount 0; LClean 0; LPost 0]) 0%nat = Some Timeout /\
+  ret [Start 20 false 0%nat; LPre 0; LCount 0; LReg 0; LLock 0; LDialOk 0; LEnq 0; LCancel 0; LUncount 0; LClean 0; LPost 0] 0%nat = Some Cancelled /\
+  ret [Start 20 false 0%nat; LPre 0; LCount 0; LReg 0; LLock 0; LDialFail 0; LUncount 0; LClean 0; LPost 0] 0%nat = Some Error /\
+  ret ([Start 20 false 0%nat; LPre 0; LCount 0; LReg 0; LLock 0] ++ ticks 30 ++ [LDialTimeout 0; LUncount 0; LClean 0; LPost 0]) 0%nat = Some Error /\
+  ret ([Start 20 false 0%nat; Start 20 false 0%nat; LPre 0; LCount 0; LReg 0; LLock 0; LDialOk 0; LEnq 0; LPre 1; LCount 1; LReg 1; LLock 1] ++ ticks 20 ++
        [LCtxFire 0; LUncount 0; LClean 0; LPost 0] ++ ticks 20 ++ [LEnqTimeout 1; LUncount 1; LClean 1; LPost 1]) 1%nat = Some Error /\
-  ret [Start 20 false; LPre 0; LFilterErr 0; LPost 0] 0%nat = Some Error /\
-  ret [Start 20 true; LPre 0; LCount 0; LReg 0; LLock 0; LDialOk 0; LEnq 0; LUncount 0; LClean 0; LPost 0] 0%nat = Some Sent.
+  ret [Start 20 false 0%nat; LPre 0; LFilterErr 0; LPost 0] 0%nat = Some Error /\
+  ret [Start 20 true 0%nat; LPre 0; LCount 0; LReg 0; LLock 0; LDialOk 0; LEnq 0; LUncount 0; LClean 0; LPost 0] 0%nat = Some Sent.
 Proof. vm_compute. repeat split; reflexivity. Qed.
 
 (* ---- the effective timeout: the caller's deadline wins, then the per-call timeout, then the proxy's; a configured
@@ -1037,35 +1061,35 @@ Theorem eff_nonpositive_expired : forall t, t_ctx t = None -> (configured t <= 0
 Proof. intros [p pc cx] H Hc. cbn in *. subst cx. unfold eff_of. cbn. lia. Qed.
 (* a call started with an expired deadline and a silent peer returns the timeout error at the instant it started *)
 Example zero_timeout_returns_at_once :
-  let '(s, _, ok) := canonical (mkscen (mkcfg 30 40 10 4 100000 60000) CAccept [mkact false None false false] 1 2 (mktmo (-5) None None) [1] false None 0 false) in
-  ok = true /\ model_calls s = [(OTimeout, 0); (OTimeout, 0)] /\ queueLen s = 0%Z /\ invokeNum s = 0%Z /\ resp s = [].
+  let '(s, _, ok) := canonical (mkscen (mkcfg 30 40 10 4 100000 60000) CAccept [mkact false None false false] 1 2 (mktmo (-5) None None) [1] false 0 None 0 false) in
+  ok = true /\ model_calls s = [(OTimeout, 0); (OTimeout, 0)] /\ queueLen s 0%nat = 0%Z /\ invokeNum s = 0%Z /\ resp s = [].
 Proof. vm_compute. repeat split; reflexivity. Qed.
 Example cancelled_call_returns_at_once :
-  let '(s, _, ok) := canonical (mkscen (mkcfg 30 40 10 4 100000 60000) CAccept [mkact false None false false] 1 1 (mktmo 30 None None) [0] false (Some 8) 0 false) in
-  ok = true /\ model_calls s = [(OTimeout, 8)] /\ queueLen s = 0%Z /\ invokeNum s = 0%Z /\ resp s = [].
+  let '(s, _, ok) := canonical (mkscen (mkcfg 30 40 10 4 100000 60000) CAccept [mkact false None false false] 1 1 (mktmo 30 None None) [0] false 0 (Some 8) 0 false) in
+  ok = true /\ model_calls s = [(OTimeout, 8)] /\ queueLen s 0%nat = 0%Z /\ invokeNum s = 0%Z /\ resp s = [].
 Proof. vm_compute. repeat split; reflexivity. Qed.
 Example rejected_calls_leave_nothing :
-  let '(s, _, ok) := canonical (mkscen (mkcfg 30 40 10 4 100000 60000) CAccept [mkact false (Some 0) false false] 1 4 (mktmo 30 None None) [1] false None 2 false) in
-  ok = true /\ map fst (model_calls s) = [OReply; OError; OReply; OError] /\ queueLen s = 0%Z /\ invokeNum s = 0%Z /\ resp s = [].
+  let '(s, _, ok) := canonical (mkscen (mkcfg 30 40 10 4 100000 60000) CAccept [mkact false (Some 0) false false] 1 4 (mktmo 30 None None) [1] false 0 None 2 false) in
+  ok = true /\ map fst (model_calls s) = [OReply; OError; OReply; OError] /\ queueLen s 0%nat = 0%Z /\ invokeNum s = 0%Z /\ resp s = [].
 Proof. vm_compute. repeat split; reflexivity. Qed.
 
 (* ---- non-vacuity: concrete reachable runs ---- *)
 Example silent_peer_times_out :
-  let '(s, _, ok) := canonical (mkscen (mkcfg 30 40 10 4 100000 60000) CAccept [mkact false None false false] 1 1 (mktmo 20 None None) [0] false None 0 false) in
-  ok = true /\ model_calls s = [(OTimeout, 20)] /\ queueLen s = 0%Z /\ invokeNum s = 0%Z /\ resp s = [].
+  let '(s, _, ok) := canonical (mkscen (mkcfg 30 40 10 4 100000 60000) CAccept [mkact false None false false] 1 1 (mktmo 20 None None) [0] false 0 None 0 false) in
+  ok = true /\ model_calls s = [(OTimeout, 20)] /\ queueLen s 0%nat = 0%Z /\ invokeNum s = 0%Z /\ resp s = [].
 Proof. vm_compute. repeat split; reflexivity. Qed.
 
 Example late_then_fast_replies :
-  let '(s, _, ok) := canonical (mkscen (mkcfg 30 40 10 4 100000 60000) CAccept [mkact false (Some 30) false false; mkact false (Some 0) false false] 1 2 (mktmo 20 None None) [1] false None 0 false) in
-  ok = true /\ model_calls s = [(OTimeout, 20); (OReply, 0)] /\ queueLen s = 0%Z /\ invokeNum s = 0%Z /\ resp s = [].
+  let '(s, _, ok) := canonical (mkscen (mkcfg 30 40 10 4 100000 60000) CAccept [mkact false (Some 30) false false; mkact false (Some 0) false false] 1 2 (mktmo 20 None None) [1] false 0 None 0 false) in
+  ok = true /\ model_calls s = [(OTimeout, 20); (OReply, 0)] /\ queueLen s 0%nat = 0%Z /\ invokeNum s = 0%Z /\ resp s = [].
 Proof. vm_compute. repeat split; reflexivity. Qed.
 
 Example one_way_returns_at_once :
-  let '(s, _, ok) := canonical (mkscen (mkcfg 30 40 10 4 100000 60000) CAccept [mkact false None false false] 1 2 (mktmo 20 None None) [1] true None 0 false) in
-  ok = true /\ model_calls s = [(OSent, 0); (OSent, 0)] /\ queueLen s = 0%Z /\ invokeNum s = 0%Z /\ resp s = [].
+  let '(s, _, ok) := canonical (mkscen (mkcfg 30 40 10 4 100000 60000) CAccept [mkact false None false false] 1 2 (mktmo 20 None None) [1] true 0 None 0 false) in
+  ok = true /\ model_calls s = [(OSent, 0); (OSent, 0)] /\ queueLen s 0%nat = 0%Z /\ invokeNum s = 0%Z /\ resp s = [].
 Proof. vm_compute. repeat split; reflexivity. Qed.
 
 Example stalled_three_callers :
-  let '(s, _, ok) := canonical (mkscen (mkcfg 30 40 10 4 100000 60000) CStall [mkact false None false false] 3 1 (mktmo 10 None None) [0] false None 0 false) in
+  let '(s, _, ok) := canonical (mkscen (mkcfg 30 40 10 4 100000 60000) CStall [mkact false None false false] 3 1 (mktmo 10 None None) [0] false 0 None 0 false) in
   ok = true /\ model_calls s = [(OError, 30); (OError, 60); (OError, 90)].
 Proof. vm_compute. repeat split; reflexivity. Qed.
